@@ -72,6 +72,11 @@ use session::{Session, Sessions};
 use self::mrp::mrp_log;
 
 mod dedup;
+/// Re-export of the receive-window types for the verification harness.
+#[cfg(feature = "verif")]
+pub mod verif_dedup {
+    pub use super::dedup::*;
+}
 
 pub mod exchange;
 pub mod mrp;
